@@ -4,15 +4,10 @@
 //! the public per-rule matcher on every parsed rule + the reference combiner
 //! (`vh::oracle::netspec`). DESIGN §4 C01.
 
-use adblock::filters::network::NetworkFilterMaskHelper;
-use adblock::lists::FilterSet;
-use adblock::Engine;
-use serde_json::{json, Value};
-use std::collections::HashSet;
-use vh::alpha::{self, Req};
-use vh::oracle::netspec::{self as ns, Rule, SpecOut};
-use vh::util::{count_arrangements_upto, nth_arrangement, subsets_of};
-use vh::{run_main, Ctx, Local, Mismatch};
+use serde_json::Value;
+use vh::alpha;
+use vh::util::{count_arrangements_upto, nth_arrangement};
+use vh::{run_main, Ctx, Local};
 
 fn pool() -> Vec<(&'static str, bool)> {
     alpha::R_NET
@@ -22,130 +17,8 @@ fn pool() -> Vec<(&'static str, bool)> {
         .collect()
 }
 
-fn build_engine(std_rules: &[&str], hosts: &[&str]) -> Engine {
-    let mut fs = FilterSet::new(true);
-    fs.add_filters(std_rules, vh::net::opts_std());
-    if !hosts.is_empty() {
-        fs.add_filters(hosts, vh::net::opts_hosts());
-    }
-    let mut e = vh::net::engine_from_set(fs, false);
-    e.use_resources(vh::net::std_resources());
-    e
-}
-
-/// Why can the index not find a rule that matches? From public data only.
-fn classify(field: &str, spec: &SpecOut, rules: &[Rule], rq: &Req) -> String {
-    let probe: HashSet<u64> = rq.req.get_tokens_for_match().copied().collect();
-    let http = adblock::utils::fast_hash("http");
-    let https = adblock::utils::fast_hash("https");
-    let mut causes: Vec<&'static str> = vec![];
-    for r in rules.iter().filter(|r| spec.matching.contains(&r.text)) {
-        for group in r.f.get_tokens() {
-            for t in group {
-                if probe.contains(&t) {
-                    continue;
-                }
-                let first_tok = r
-                    .f
-                    .filter
-                    .string_view()
-                    .map(|f| adblock::utils::tokenize(&f))
-                    .and_then(|v| v.first().copied());
-                let c = if t == http || t == https {
-                    "protocol-token-not-in-request"
-                } else if r.f.opt_domains.as_ref().map(|d| d.contains(&t)).unwrap_or(false) {
-                    if rq.req.source_hostname_hashes.is_none() {
-                        "domain-token-with-absent-initiator"
-                    } else {
-                        "domain-token"
-                    }
-                } else if !r.f.is_left_anchor() && !r.f.is_hostname_anchor() && Some(t) == first_tok {
-                    "first-token-of-unanchored-pattern"
-                } else {
-                    "other-token"
-                };
-                if !causes.contains(&c) {
-                    causes.push(c);
-                }
-            }
-        }
-    }
-    causes.sort();
-    if causes.is_empty() {
-        format!("c01.{}", field)
-    } else {
-        format!("c01.{}.unprobed:{}", field, causes.join("+"))
-    }
-}
-
-fn check_list(items: &[(&'static str, bool)], reqs: &[Req], l: &mut Local, sample: bool) {
-    let std_rules: Vec<&str> = items.iter().filter(|i| !i.1).map(|i| i.0).collect();
-    let hosts: Vec<&str> = items.iter().filter(|i| i.1).map(|i| i.0).collect();
-    let rules = ns::parse_rules(&std_rules, &hosts);
-    let mut e = build_engine(&std_rules, &hosts);
-    l.states += 1;
-    let store = ns::std_res_spec();
-    let tags_present = alpha::tags_in(&std_rules);
-    if sample {
-        l.samples.push(json!({"list": std_rules, "hosts_lines": hosts, "tag_subsets_of": tags_present, "requests": reqs.len(), "first_request": [reqs[0].url, reqs[0].source, reqs[0].ty]}));
-    }
-    for tagset in subsets_of(&tags_present) {
-        let tagrefs: Vec<&str> = tagset.iter().map(|s| s.as_str()).collect();
-        e.use_tags(&tagrefs);
-        let tags: HashSet<String> = tagset.iter().cloned().collect();
-        let active = ns::active_rules_by_text(&rules, &tags);
-        for rq in reqs {
-            l.evaluations += 1;
-            l.transitions += 1;
-            let (d, spec, got) = ns::compare_engine_active(&e, &active, &rq.req, &rq.url, &store);
-            l.compared += 1;
-            if spec.verdict.hits > 0 {
-                l.nontrivial += 1;
-                if spec.verdict.hits > 1 {
-                    l.count("requests_hit_by_two_or_more_rules", 1);
-                }
-            }
-            if let Some(g) = &got {
-                if spec.verdict.hits > 0 || g.matched {
-                    l.hist(&g.short());
-                }
-            }
-            if let Some(field) = d {
-                l.mismatch(Mismatch {
-                    sig: classify(&field, &spec, &rules, rq),
-                    what: format!(
-                        "list {:?}+{:?} tags {:?} request ({}, {}, {}): matching rules {:?}; reference {:?}; engine {:?}",
-                        std_rules, hosts, tagset, rq.url, rq.source, rq.ty, spec.matching, spec.verdict, got
-                    ),
-                    case: json!({"rules": std_rules, "hosts": hosts, "tags": tagset, "url": rq.url, "source": rq.source, "type": rq.ty}),
-                    size: (items.len() * 10000 + tagset.len() * 1000 + rq.url.len() * 4 + rq.source.len()) as u64,
-                });
-            }
-        }
-    }
-}
-
 fn replay(case: &Value, l: &mut Local) {
-    let strs = |k: &str| -> Vec<String> {
-        case[k].as_array().map(|a| a.iter().filter_map(|v| v.as_str().map(|s| s.to_string())).collect()).unwrap_or_default()
-    };
-    let rules_s = strs("rules");
-    let hosts_s = strs("hosts");
-    // leak: replay handles a single case, and the alphabets are &'static str
-    let mut items: Vec<(&'static str, bool)> = vec![];
-    for r in rules_s {
-        items.push((Box::leak(r.into_boxed_str()), false));
-    }
-    for r in hosts_s {
-        items.push((Box::leak(r.into_boxed_str()), true));
-    }
-    let url = case["url"].as_str().unwrap_or("").to_string();
-    let source = case["source"].as_str().unwrap_or("").to_string();
-    let ty: &'static str = Box::leak(case["type"].as_str().unwrap_or("script").to_string().into_boxed_str());
-    if let Ok(req) = adblock::request::Request::new(&url, &source, ty) {
-        let reqs = vec![Req { req, url, source, ty }];
-        check_list(&items, &reqs, l, false);
-    }
+    vh::netsweep::replay_case("c01", case, l, true);
 }
 
 fn check(ctx: &Ctx) -> i32 {
@@ -164,7 +37,7 @@ fn check(ctx: &Ctx) -> i32 {
         nth_arrangement(i, pool.len() as u64, &mut idx);
         let items: Vec<(&'static str, bool)> = idx.iter().map(|&j| pool[j]).collect();
         let sample = l.samples.len() < 2 && (i + ctx.seed) % 577 == 3;
-        check_list(&items, &reqs, l, sample);
+        vh::netsweep::check_list("c01", &items, &reqs, l, sample, true);
     });
     if ctx.tier == vh::Tier::Thorough {
         // lists of <= 2 rules against the full request cross (all URLs x all initiators x all type aliases)
@@ -175,7 +48,7 @@ fn check(ctx: &Ctx) -> i32 {
             let mut idx = vec![];
             nth_arrangement(i, pool.len() as u64, &mut idx);
             let items: Vec<(&'static str, bool)> = idx.iter().map(|&j| pool[j]).collect();
-            check_list(&items, &full, l, false);
+            vh::netsweep::check_list("c01", &items, &full, l, false, true);
         });
     }
     ctx.finish(
